@@ -339,6 +339,7 @@ def device(b, name, fail=False, color=None, power=None, features=None):
                        get_group=simple('get_group', lambda I_: I_.fresh('str', 'group')),
                        get_location=simple('get_location', lambda I_: I_.fresh('str', 'location')),
                        get_product_name=simple('get_product_name', 'bulb'),
+                       get_mac_addr=simple('get_mac_addr', 'd0:73:d5:%s' % name),
                        get_product_features=simple('get_product_features', lambda I_: PyDict(dict(features or {}))),
                        get_color_zones=get_color_zones)
     return dev
